@@ -37,7 +37,7 @@ def one_case(ctx, rng, k, model):
     bs_arg = tuple(-1 if free == j + 1 else b for j, b in enumerate(bs))
     try:
         if route == 'numpy':
-            conv.numpy_to_sgz(arr, out, q, bs_arg, style=k // 8)
+            conv.numpy_to_sgz(gen.noncontiguous(arr, k // 16) if (k // 8) % 2 else arr, out, q, bs_arg, style=k // 8)
             src = arr
         else:
             fmt = [5, 1][(k // 8) % 2]
